@@ -22,6 +22,32 @@
    - C01_forward (monotonicity of every step): the proposal list of a transaction, once set, never changes; the
      details of a proposal and the targets of a transaction never change; phases only move forward
      (absent -> in progress -> done / failed, never back); records and configurations are never deleted.
+   VALUE LEVEL, on the executable instance (Model/P2Inst.v over the concrete pure layer Model/P2Pure.v; second part of
+   this file).  Worlds are x_run ls for label lists with labels_wfb ls = true (every request a wf_change: unique proper
+   keys = paths, no update beneath a delete of the same request - the excluded overlap is the open finding F-14 - and
+   values live at leaves) and completes (every reconcile invocation runs to its end; the well-formedness of the stored
+   maps, Proofs/P2PureReach*.v reach_inv, is an invariant of exactly those worlds).  [live (view overlay C)] is what
+   Get returns for the target (live leaves not beneath a tombstone, sorted by path).
+   - C01_commit_contains_change: the commit step of proposal (t, i) of a Change (COMMITTING, on top of its predecessor)
+     moves Committed.Index to i, and afterwards the live view of t shows p = v for every update (p, v) of the change
+     and nothing at or beneath any deleted path of the change - for every Go-map iteration order (o_order).  No
+     hypothesis on the indexes already stored: a stored value that store() skips because it carries the same index
+     says the same (idx_compat, part of the invariant).
+   - C01_untouched_targets_keep_values: a complete step changes the live view of a target only if it is the commit of
+     a proposal of THAT target; C01_other_target_keeps: a step of proposal (t', i) leaves the live view of every other
+     target unchanged.
+   - C01_committed_value_persists: a live stored value of a target survives every complete step unless the step is
+     the commit of a proposal of that target whose values touch its path (hold the path or delete a path above it).
+   - C01_all_or_none_values_partial: at a fixed point (no reconciler has anything left to do) of such a run, for every
+     transaction EITHER every listed proposal is COMMITTED and the live view of each named target shows every update
+     of its share, unless a LATER commit of that target touched the path - that commit step is exhibited as a position
+     of the run after the proposal's own commit step ([touched_in]) - OR no proposal of the transaction has a Commit
+     phase and no step of any of its proposals, anywhere in the run, altered the live view of any target.
+     Named premise not discharged: committed_means_merged ls - every proposal that is COMMITTED at the end was
+     merged by a commit step of the run that found Committed.Index = PrevIndex (reconcileCommit marks a proposal
+     COMMITTED without merging when the index is elsewhere; that this cannot happen is a statement about the cursors).
+     For the deleted paths of a change the theorem states only what holds right after the commit
+     (C01_commit_contains_change); "still nothing there unless a later commit wrote it" is not stated.
    What remains partial: "contains all of that request's changes" as a statement about the merged VALUES
    (values = fold of commit_merge along the per-target chain) is the values_fold invariant of C02/C03, not proved
    here; a committing proposal whose configuration's Committed.Index is not its PrevIndex is marked COMMITTED
@@ -124,3 +150,68 @@ Print Assumptions C01_forward.
 Print Assumptions C01_reject_never_commits.
 Print Assumptions C01_values_only_by_commit.
 Print Assumptions C01_all_or_none_at_fixpoint.
+
+(** * Value level: the executable instance (Model/P2Inst.v) *)
+From OC Require Import Base.Bytes Model.P2Pure Model.P2Inst Proofs.P2_ConvergeEx Proofs.P2PureApplyDefs Proofs.P2PureApplyBase
+     Proofs.P2PureApplyInst Proofs.P2PureReachLabels Proofs.P2PureAtomicCommit Proofs.P2PureAtomicFrame Proofs.P2PureAtomicAll.
+
+Theorem C01_commit_contains_change :
+  forall (ls : list Label) t i n (o : oracle) (P : Prop2) (C C' : Cfg) c,
+  labels_wfb (ls ++ [LRec (CtlProp (t, i)) n o]) = true -> completes p2_init (ls ++ [LRec (CtlProp (t, i)) n o]) ->
+  props (x_run ls) !! (t, i) = Some P -> p_details P = PChange c -> cfgs (x_run ls) !! t = Some C ->
+  p_commit P = Some Doing -> p_apply P = None -> p_abort P = None -> c_committed C = p_prev P ->
+  cfgs (p2_step (x_run ls) (LRec (CtlProp (t, i)) n o)) !! t = Some C' ->
+  c_committed C' = i /\
+  (forall p u, In (p, u) c -> pv_deleted u = false -> In (p, pv_val u) (live (view overlay C'))) /\
+  (forall d u, In (d, u) c -> pv_deleted u = true ->
+     forall k x, In (k, x) (live (view overlay C')) -> k <> d /\ ~ Below k d).
+Proof. exact commit_contains_change_run. Qed.
+
+Theorem C01_untouched_targets_keep_values :
+  forall (ls : list Label) (l : Label) t (C C' : Cfg),
+  labels_wfb (ls ++ [l]) = true -> completes p2_init (ls ++ [l]) ->
+  cfgs (x_run ls) !! t = Some C -> cfgs (p2_step (x_run ls) l) !! t = Some C' ->
+  live (view overlay C') = live (view overlay C) \/
+  exists i n o (P : Prop2), l = LRec (CtlProp (t, i)) n o /\ props (x_run ls) !! (t, i) = Some P /\
+    p_commit P = Some Doing /\ p_apply P = None /\ p_abort P = None /\ c_committed C = p_prev P /\ (0 < n)%nat.
+Proof. exact live_view_frame_run. Qed.
+
+Theorem C01_other_target_keeps :
+  forall (ls : list Label) t' i n o t (C C' : Cfg),
+  labels_wfb (ls ++ [LRec (CtlProp (t', i)) n o]) = true -> completes p2_init (ls ++ [LRec (CtlProp (t', i)) n o]) -> t' <> t ->
+  cfgs (x_run ls) !! t = Some C -> cfgs (p2_step (x_run ls) (LRec (CtlProp (t', i)) n o)) !! t = Some C' ->
+  live (view overlay C') = live (view overlay C).
+Proof. exact other_target_keeps_run. Qed.
+
+Theorem C01_committed_value_persists :
+  forall (ls : list Label) (l : Label) t (C C' : Cfg) p e,
+  labels_wfb (ls ++ [l]) = true -> completes p2_init (ls ++ [l]) ->
+  cfgs (x_run ls) !! t = Some C -> cfgs (p2_step (x_run ls) l) !! t = Some C' ->
+  P2Pure.lookup p (c_values C) = Some e -> pv_deleted e = false ->
+  P2Pure.lookup p (c_values C') = Some e \/
+  exists i n o (P : Prop2), l = LRec (CtlProp (t, i)) n o /\ props (x_run ls) !! (t, i) = Some P /\
+    p_commit P = Some Doing /\ p_apply P = None /\ p_abort P = None /\ c_committed C = p_prev P /\
+    touches (rb_change [] P) p.
+Proof. exact live_value_persists_run. Qed.
+
+Theorem C01_all_or_none_values_partial :
+  forall ls : list Label,
+  labels_wfb ls = true -> completes p2_init ls -> (forall c o, fst (p2_reconcile o (x_run ls) c) = []) ->
+  committed_means_merged ls ->
+  forall i (T : Txn), txs (x_run ls) !! i = Some T ->
+    (forall t, In t (default [] (t_props T)) ->
+       exists (P : Prop2) (C : Cfg), props (x_run ls) !! (t, i) = Some P /\ p_commit P = Some Done /\ cfgs (x_run ls) !! t = Some C /\
+         forall c p u, p_details P = PChange c -> In (p, u) c -> pv_deleted u = false ->
+           In (p, pv_val u) (live (view overlay C)) \/
+           exists ls1 ls2 n o, ls = ls1 ++ LRec (CtlProp (t, i)) n o :: ls2 /\
+                               touched_in (x_run (ls1 ++ [LRec (CtlProp (t, i)) n o])) ls2 t p) \/
+    ((forall t P, props (x_run ls) !! (t, i) = Some P -> p_commit P = None) /\
+     forall ls1 ls2 t n o t' (C C' : Cfg), ls = ls1 ++ LRec (CtlProp (t, i)) n o :: ls2 ->
+       cfgs (x_run ls1) !! t' = Some C -> cfgs (p2_step (x_run ls1) (LRec (CtlProp (t, i)) n o)) !! t' = Some C' ->
+       live (view overlay C') = live (view overlay C)).
+Proof. exact all_or_none_values_partial. Qed.
+Print Assumptions C01_commit_contains_change.
+Print Assumptions C01_untouched_targets_keep_values.
+Print Assumptions C01_other_target_keeps.
+Print Assumptions C01_committed_value_persists.
+Print Assumptions C01_all_or_none_values_partial.
